@@ -140,6 +140,7 @@ func (c *Ctx) Mine() bool {
 func (c *Ctx) MineBlock(n int64) bool {
 	i := c.idx
 	c.idx++
+	c.beat()
 	if int((i+c.Seed)%int64(c.N)) != c.Shard {
 		return false
 	}
@@ -152,6 +153,7 @@ func (c *Ctx) MineBlock(n int64) bool {
 
 // Add counts n more cases inside a block this worker owns.
 func (c *Ctx) Add(n int64) {
+	c.beat()
 	c.States += n
 	if c.spaceCtr != nil {
 		*c.spaceCtr += n
@@ -216,7 +218,7 @@ func ReadBeat(path string) (uint64, bool) {
 }
 
 // NT counts a distinct non-trivial case.
-func (c *Ctx) NT() { c.Nontrivial++ }
+func (c *Ctx) NT() { c.Nontrivial++; c.beat() }
 
 // Count bumps a named counter.
 func (c *Ctx) Count(name string, n int64) { c.counters[name] += n }
